@@ -153,6 +153,8 @@ type OpaqueV struct {
 	Kind string
 	ID   int
 	Data interface{}
+	// Names: field names of the struct Data points to (ORM pagination option)
+	Names []string
 }
 
 type NilV struct{} // untyped nil placeholder (zero of pointer/slice/map/iface/func handled per type)
